@@ -17,11 +17,21 @@ Definition ACN_TWO_BYTES : N := 2.
 Definition ACN_THREE_BYTES : N := 3.
 Definition ACN_LFLAG_MASK : N := 128.
 Definition ACN_LENGTH_MASK : N := 15.
+Definition ACN_VFLAG_MASK : N := 64.
+Definition ACN_HFLAG_MASK : N := 32.
+Definition ACN_CID_LENGTH : N := 16.
+Definition ACN_ROOT_VECTOR_SIZE : N := 4.
+Definition ACN_VECTOR_ROOT_NULL : N := 6.
 Definition RPC_VERSION_MASK : N := 4026531840.
 Definition RPC_SIZE_MASK : N := 268435455.
 Definition RPC_PROTOCOL_VERSION : N := 1.
 Definition RPC_MAX_BUFFER_SIZE : N := 1048576.
+Definition ROBEL_RDM_RESPONSE : N := 17.
+Definition ROBEL_RDM_DISCOVERY_RESPONSE : N := 19.
+Definition ROBEL_DMX_IN_RESPONSE : N := 5.
 From Coq Require Import List.
 Definition ACN_HEADER : list N := (cons 65 (cons 83 (cons 67 (cons 45 (cons 69 (cons 49 (cons 46 (cons 49 (cons 55 (cons 0 (cons 0 (cons 0 nil)))))))))))).
 Definition ACN_HEADER_SIZE : N := 12.
 Definition ACN_INITIAL_SIZE : N := 500.
+(* label -> handler of RobeWidgetImpl::HandleMessage: 1 HandleRDMResponse, 2 HandleDiscoveryResponse, 3 HandleDmxFrame; labels not listed fall into the default branch *)
+Definition ROBE_DISPATCH : list (N * N) := (cons (pair ROBEL_RDM_RESPONSE 1) (cons (pair ROBEL_RDM_DISCOVERY_RESPONSE 2) (cons (pair ROBEL_DMX_IN_RESPONSE 3) nil))).
